@@ -1,6 +1,7 @@
 """FakeConnection: stands in for wpull.network.connection.Connection (asyncio streams, sockets).
 
-Contract modelled: readline() = bytes up to and including the first LF, or the rest at EOF;
+Contract modelled: readline() = bytes up to and including the first LF, or the rest at EOF, ValueError for a
+line longer than the stream-reader limit (64 KiB, as asyncio.StreamReader.readline does);
 read(n) = a non-empty prefix of the remaining bytes, at most n long, its length taken from the
 list `cuts` (symbolic) -- b'' only at EOF; write() appends to `sent`; close/closed/reset/connect flags.
 Reactive mode: `script` is a list of byte strings; string k+1 becomes readable only after the
@@ -11,7 +12,8 @@ import asyncio
 
 
 class FakeConnection:
-    def __init__(self, data=b'', cuts=(), script=None, address=('192.0.2.1', 21)):
+    def __init__(self, data=b'', cuts=(), script=None, address=('192.0.2.1', 21), limit=65536):
+        self.limit = limit
         self.data = data
         self.pos = 0
         self.cuts = list(cuts)
@@ -58,6 +60,10 @@ class FakeConnection:
         self.ops.append('readline')
         i = self.data.find(b'\n', self.pos)
         end = len(self.data) if i < 0 else i + 1
+        if end - self.pos > self.limit:
+            # asyncio.StreamReader.readline: a line longer than the reader's limit raises ValueError (and drops buffered data)
+            self.pos = end
+            raise ValueError('Separator is not found, and chunk exceed the limit')
         out = self.data[self.pos:end]
         self.pos = end
         return out
